@@ -32,7 +32,7 @@ def build():
             {
                 "property_id": pid,
                 "quick_cmd": "bin/check %s --tier quick" % pid,
-                "thorough_cmd": "bin/check %s --tier thorough" % pid,
+                "thorough_cmd": ("VERIF_JOBS=6 " if pid == "C17" else "") + "bin/check %s --tier thorough" % pid,
                 "evidence_file": "evidence/%s.json" % pid,
                 "replay_cmd_template": "bin/check %s --replay {path}" % pid,
                 "engine": "contracts",
